@@ -85,6 +85,32 @@ fn case(tier: Tier, rng: &mut Rng, rep: &mut Report) {
             continue;
         }
         let ref_min = dijkstra(&net, &cost, &allowed, o, true)[d];
+        // O4 the estimate that orders A* is a lower bound: in these worlds every edge is longer than the great circle
+        // between its ends (by >= 0.1 % + 5 m, far above f32 noise), speeds never exceed the table's maximum and all rates
+        // are non-negative and monotone, so the least cost from any vertex to the destination cannot be below the
+        // estimate for that pair
+        if net.metric && !edge_oriented && !reverse {
+            let to_d = dijkstra(&net, &cost, &allowed, d, false);
+            if let Ok(init) = si.state_model.initial_state() {
+                for _ in 0..3 {
+                    let u = rng.below(net.nv());
+                    if u == d || !to_d[u].is_finite() {
+                        continue;
+                    }
+                    rep.eval();
+                    use routee_compass_core::model::network::VertexId;
+                    use routee_compass_core::model::unit::as_f64::AsF64;
+                    if let Ok(Ok(est)) = crate::hooks::catch(|| si.estimate_traversal_cost(VertexId(u), VertexId(d), &init)) {
+                        let est = est.as_f64();
+                        if est > to_d[u] * (1.0 + 1e-9) + 1e-9 {
+                            rep.violate("C02|estimate-exceeds-least-cost", format!("O4 the cost estimate from vertex {u} to {d} is {est}, the least cost of a route between them is {} ({}x): A* ordered by it can return a costlier route", to_d[u], est / to_d[u]), || json!({"world": world.to_json(), "from": u, "to": d, "independent_edge_costs": cost}));
+                            break;
+                        }
+                        rep.count("estimates_confirmed_as_lower_bounds", 1);
+                    }
+                }
+            }
+        }
         let mut algs = vec![Alg::Dijkstra];
         if net.metric {
             algs.push(Alg::AStar(*rng.pick(&[None, Some(1.0), Some(0.5), Some(0.0), Some(0.9)])));
